@@ -1,10 +1,11 @@
 #!/bin/bash
-# usage: tools/confirm_mutant.sh <dir with patch.diff and demo_test.go>
+# usage: tools/confirm_mutant.sh <dir with patch.diff and demo_test.go> [package dir of the demo, default .]
 # Confirms independently, in a scratch worktree of /repo's HEAD: the demonstration passes
 # without the change; with the change the tree builds, the repository's suite passes and
 # the demonstration fails. Prints CONFIRMED or the reason.
 set -u
 d="$(readlink -f "$1")"
+pkg="${2:-.}"
 wt=/root/scratch/confirm-wt.$$
 export GOFLAGS=-mod=mod GOPROXY=off GOSUMDB=off
 git -C /repo worktree add --detach "$wt" HEAD >/dev/null 2>&1 || { echo "cannot create worktree"; exit 2; }
@@ -17,7 +18,7 @@ demo() { # $1 = extra flags
   return $rc
 }
 names=$(grep -o 'func Test[A-Za-z0-9_]*' "$d"/demo_test.go | sed 's/func //' | tr '\n' '|' | sed 's/|$//')
-rundemo() { cp "$d"/demo_test.go ./zz_demo_test.go; go test -vet=off -count=1 $1 -run "^($names)\$" . >/root/scratch/demo.$$.log 2>&1; rc=$?; rm -f ./zz_demo_test.go; return $rc; }
+rundemo() { cp "$d"/demo_test.go "$pkg"/zz_demo_test.go; go test -vet=off -count=1 $1 -run "^($names)\$" "./$pkg" >/root/scratch/demo.$$.log 2>&1; rc=$?; rm -f "$pkg"/zz_demo_test.go; return $rc; }
 flags=""
 if ! rundemo ""; then echo "NOT-CONFIRMED: demo fails on the clean tree"; tail -5 /root/scratch/demo.$$.log; exit 1; fi
 git apply "$d"/patch.diff || { echo "NOT-CONFIRMED: patch does not apply"; exit 1; }
